@@ -197,6 +197,8 @@ class Scheduler:
         dst = self._slot_for_result(world)
         choices = ["polygon", "polygon", "polygon", "square", "triangle", "regular", "primpoly",
                    "jordan", "singleton"]
+        if numeric != "float" and r.random() < 0.25:
+            choices.append("mixedpoly")
         if cfg["curved"]:
             choices += ["circle", "circle", "quad", "cubic", "spandrel", "dome", "smallcircle", "gentle"]
         if cfg["composite_builds"]:
@@ -259,7 +261,17 @@ class Scheduler:
         if what == "jordan":
             if r.random() < 0.3:
                 chain = gen.reverse_chain(chain)
+            if cfg["curved"] and r.random() < 0.5:
+                # a stand-alone curved curve; a straight edge may be written with three
+                # collinear control points (degree-reducible segment)
+                cc = gen.curved_chain(r, numeric, 2)
+                if cc is not None:
+                    chain = cc
             return {"op": "build", "what": "value", "value": model.jsonable(("J", chain)), "dst": dst}
+        if what == "mixedpoly":
+            # one coordinate float, the other rational: Point2D keeps both kinds
+            mixed = tuple(tuple((float(x), y) for (x, y) in seg) for seg in chain)
+            return {"op": "build", "what": "value", "value": model.jsonable(("S", mixed)), "dst": dst}
         if what == "inverted":
             return {"op": "build", "what": "value",
                     "value": model.jsonable(("S", gen.reverse_chain(chain))), "dst": dst}
@@ -551,7 +563,10 @@ class Scheduler:
             ang = r.uniform(-math.tau, math.tau) if r.random() < 0.8 else r.choice([1, 2, 3, -1])
             deg = r.choice([None, False])
             return {"op": "rotate", "a": a, "angle": J(ang), "degrees": deg}
-        return {"op": "invert", "a": a}
+        st = {"op": "invert", "a": a}
+        if k == "S" and r.random() < 0.4:
+            st["via"] = "jordan"
+        return st
 
     def inverse_pair(self, world):
         """Macro: snapshot, ==, T, T^-1, == (same answer expected)."""
